@@ -274,6 +274,31 @@ func (r *run) request(t *rapid.T, kind string, small bool) {
 		if err == nil {
 			tx = pkt.UnsignedTx
 			signed = false
+			// the funded packet is the unsigned result; letting the wallet
+			// finalize it yields the signed one
+			// (FinalizePsbt signs witness inputs only: for a P2PKH input it
+			// returns nil and leaves a witness on a non-witness input - noted
+			// as an observation in DESIGN.md, FinalizePsbt is not one of the
+			// statement's entry points - so packets spending BIP44 coins are
+			// not finalized here)
+			legacy := false
+			for _, in := range pkt.UnsignedTx.TxIn {
+				if co, ok := eligible[in.PreviousOutPoint]; ok && co.Own.Scope == waddrmgr.KeyScopeBIP0044 {
+					legacy = true
+				}
+			}
+			if !legacy && rapid.Bool().Draw(t, "finalize") {
+				if ferr := s.F.W.FinalizePsbt(q.Scope, q.Account, pkt); ferr != nil {
+					s.F.Violation("FinalizePsbt of the packet FundPsbt just funded failed: %v", ferr)
+				}
+				ftx, xerr := psbt.Extract(pkt)
+				if xerr != nil {
+					s.F.Violation("the finalized packet cannot be extracted: %v", xerr)
+				}
+				tx = ftx
+				signed = true
+				s.C.Class("fund-psbt-finalized")
+			}
 		}
 	}
 	_ = prevFromWallet
